@@ -74,7 +74,14 @@ static std::vector<uint32> nums(const std::string & s)
 {
    std::vector<uint32> r; if (s.empty()) return r;
    std::vector<std::string> p = split(s, ',');
-   for (size_t i=0; i<p.size(); i++) r.push_back((uint32) strtoul(p[i].c_str(), NULL, 10));
+   for (size_t i=0; i<p.size(); i++)
+   {
+      // "v*n" = n entries of v
+      const size_t star = p[i].find('*');
+      const uint32 v = (uint32) strtoul(p[i].c_str(), NULL, 10);
+      const size_t rpt = (star == std::string::npos) ? 1 : (size_t) strtoul(p[i].c_str()+star+1, NULL, 10);
+      for (size_t j=0; j<rpt; j++) r.push_back(v);
+   }
    return r;
 }
 
@@ -270,6 +277,7 @@ static void run_c_case(int k, const std::string & headstr, const std::string & b
       static uint8 uin[70000], uout[70000];
       UMessageGateway ugw; if (!mini) UGGatewayInitialize(&ugw, uin, sizeof(uin), uout, sizeof(uout));
       std::vector<std::string> sent, got;
+      auto c_has_bytes = [&]() -> bool {return cSends ? (mini ? (MGHasBytesToOutput(mgw) != 0) : (UGHasBytesToOutput(&ugw) != 0)) : cppgw.HasBytesToOutput();};
       bool skip = false;
       std::vector<std::string> ops = split(body, ';');
       for (size_t n=0; (n<ops.size())&&(!skip); n++)
@@ -280,7 +288,7 @@ static void run_c_case(int k, const std::string & headstr, const std::string & b
          {
             const std::string fb = unhex(a.size()>1 ? a[1] : "");
             sent.push_back(fb);
-            o << "q";
+            const bool qtok = true;
             if (!cSends)
             {
                MessageRef m = GetMessageFromPool();
@@ -310,6 +318,7 @@ static void run_c_case(int k, const std::string & headstr, const std::string & b
                }
                if (ok) UGOutgoingMessagePrepared(&ugw, &um); else {UGOutgoingMessageCancelled(&ugw, &um); sent.pop_back();}
             }
+            if (qtok) o << "q" << (c_has_bytes() ? "+" : "-");
          }
          else if (a[0] == "o")
          {
@@ -322,13 +331,13 @@ static void run_c_case(int k, const std::string & headstr, const std::string & b
                o << "o"; if (r.IsError()) o << "E"; else o << r.GetByteCount();
                o << ":" << hex(xio->_moved) << ":" << cppgw.GetOutgoingMessageQueue().GetNumItems() << "/";
                if (cppgw._sendBuffer._buffer()) o << cppgw._sendBuffer._buffer()->GetNumBytes(); else o << "-";
-               o << "/" << cppgw._sendBuffer._offset;
+               o << "/" << cppgw._sendBuffer._offset << "/" << (cppgw.HasBytesToOutput() ? "h1" : "h0");
             }
             else if (mini)
             {
                const int32 r = MGDoOutput(mgw, maxb, c_send, &cscr);
                std::string w; for (size_t i=before; i<pipe.q.size(); i++) w.push_back((char) pipe.q[i]);
-               o << "o" << r << ":" << hex(w) << ":" << vh_mg_out_bufs(mgw) << "/" << vh_mg_out_pos(mgw);
+               o << "o" << r << ":" << hex(w) << ":" << vh_mg_out_bufs(mgw) << "/" << vh_mg_out_pos(mgw) << "/" << (MGHasBytesToOutput(mgw) ? "h1" : "h0");
             }
             else (void) UGDoOutput(&ugw, maxb, c_send, &cscr);
          }
@@ -376,6 +385,51 @@ static void run_c_case(int k, const std::string & headstr, const std::string & b
             o << "x"; injected = true;
          }
          o << " ";
+      }
+      // ---- oracle: liveness of the send pump (see run_case): call the sender only while its HasBytesToOutput says true
+      if ((!skip)&&(!injected)&&(orc.str().empty()))
+      {
+         const std::vector<uint32> all(6000, MUSCLE_NO_LIMIT);
+         for (int it=0; it<200000; it++)
+         {
+            bool progress = false;
+            if (c_has_bytes())
+            {
+               cscr.script = all; cscr.pos = 0; xio->Load(all);
+               const size_t before = pipe.q.size();
+               if (!cSends) (void) cppgw.DoOutput(MUSCLE_NO_LIMIT);
+               else if (mini) (void) MGDoOutput(mgw, MUSCLE_NO_LIMIT, c_send, &cscr);
+               else (void) UGDoOutput(&ugw, MUSCLE_NO_LIMIT, c_send, &cscr);
+               if (pipe.q.size() > before) progress = true;
+            }
+            if (!pipe.q.empty())
+            {
+               cscr.script = all; cscr.pos = 0; xio->Load(all);
+               const size_t before = pipe.q.size();
+               if (cSends)
+               {
+                  (void) cppgw.DoInput(recv, MUSCLE_NO_LIMIT);
+                  MessageRef m; while(recv.RemoveHead(m).IsOK()) {ByteBufferRef b = m()->FlattenToByteBuffer(); got.push_back(std::string((const char *)b()->GetBuffer(), b()->GetNumBytes()));}
+               }
+               else if (mini)
+               {
+                  MMessage * rm = NULL;
+                  (void) MGDoInput(mgw, MUSCLE_NO_LIMIT, c_recv, &cscr, &rm);
+                  if (rm) {std::string f(MMGetFlattenedSize(rm), 0); MMFlattenMessage(rm, (uint8 *) &f[0]); got.push_back(f); MMFreeMessage(rm);}
+               }
+               else
+               {
+                  UMessage rm;
+                  (void) UGDoInput(&ugw, MUSCLE_NO_LIMIT, c_recv, &cscr, &rm);
+                  if (UMIsMessageValid(&rm)) got.push_back(std::string((const char *)UMGetFlattenedBuffer(&rm), UMGetFlattenedSize(&rm)));
+               }
+               if (pipe.q.size() < before) progress = true;
+            }
+            if (!progress) break;
+         }
+         if (c_has_bytes()) orc << k << " ORACLE FAIL " << headstr << " pump: sender makes no progress over an unlimited transport but its HasBytesToOutput stays true\n";
+         else if (!pipe.q.empty()) orc << k << " ORACLE FAIL " << headstr << " pump: receiver leaves " << pipe.q.size() << " bytes unread\n";
+         else if (got != sent) orc << k << " ORACLE FAIL " << headstr << " pump: HasBytesToOutput is false and nothing is in flight, but only " << got.size() << " of " << sent.size() << " queued Messages were delivered (or they differ)\n";
       }
       const bool senderDone = cSends ? (mini ? (MGHasBytesToOutput(mgw) == 0) : (UGHasBytesToOutput(&ugw) == 0)) : (cppgw.HasBytesToOutput() == false);
       if ((!skip)&&(!injected)&&(senderDone)&&(pipe.q.empty())&&(got.size() != sent.size())) orc << k << " ORACLE FAIL " << headstr << ": all bytes moved but " << got.size() << " of " << sent.size() << " Messages delivered\n";
@@ -506,7 +560,7 @@ static void run_case(int k, const std::string & line)
                   sent.push_back(unhex(it[i]));
                }
             }
-            o << (sgw()->AddOutgoingMessage(m).IsOK() ? "q" : "qE");
+            o << (sgw()->AddOutgoingMessage(m).IsOK() ? "q" : "qE") << (sgw()->HasBytesToOutput() ? "+" : "-");
          }
          else if (c == "x")
          {
@@ -544,6 +598,8 @@ static void run_case(int k, const std::string & line)
                RawDataMessageIOGateway * g = static_cast<RawDataMessageIOGateway *>(sgw());
                o << (g->_sendMsgRef() ? 1 : 0) << "/" << g->_sendBufIndex << "/" << g->_sendBufByteOffset << "/" << g->_sendBufLength;
             }
+            // what every event loop asks before it calls DoOutput() again
+            o << "/" << (sgw()->HasBytesToOutput() ? "h1" : "h0");
          }
          else if (c == "f")   // stress proxy: push buffered output to the transport (script = child Write counts)
          {
@@ -621,6 +677,56 @@ static void run_case(int k, const std::string & line)
          }
          else {fprintf(stderr, "bad op [%s]\n", ops[n].c_str()); exit(2);}
          o << " ";
+      }
+      // ---- oracle: liveness of the send pump.  An event loop (ReflectServer, ExecuteSynchronousMessaging) calls DoOutput()
+      // only while the gateway's own HasBytesToOutput() says true: pumped that way over a transport that accepts everything,
+      // and the receiver drained, everything queued must have been written and delivered ("HasBytesToOutput() false
+      // implies nothing unsent").  Runs after the scripted calls of the case; not part of the printed tokens.
+      if ((oracle_on)&&(!failed)&&(!limited_in))
+      {
+         const std::vector<uint32> all(6000, MUSCLE_NO_LIMIT);
+         for (int it=0; it<200000; it++)
+         {
+            bool progress = false;
+            if (sgw()->HasBytesToOutput())
+            {
+               wio->Load(all); wpio->Load(all);
+               const io_status_t r = sgw()->DoOutput(MUSCLE_NO_LIMIT);
+               if (r.IsError()) {orc << k << " ORACLE FAIL pump: DoOutput() reports an error\n"; failed = true; break;}
+               if (r.GetByteCount() > 0) progress = true;
+            }
+            if ((sio)&&(sio->HasBufferedOutput())) {wio->Load(all); sio->WriteBufferedOutput(); progress = true;}
+            if ((!pipe.q.empty())||(!packets.empty()))
+            {
+               rio->Load(all); rpio->Load(all);
+               const io_status_t r = rgw()->DoInput(recv, MUSCLE_NO_LIMIT);
+               MessageRef m; while(recv.RemoveHead(m).IsOK()) items_of(kind, m, got);
+               if ((r.IsError())||(rgw()->GetUnrecoverableErrorStatus().IsError())) {orc << k << " ORACLE FAIL pump: receiver went into the unrecoverable-error state on the stream of its own peer\n"; failed = true; break;}
+               if (r.GetByteCount() > 0) progress = true;
+            }
+            if (!progress) break;
+         }
+         if (!failed)
+         {
+            if (sgw()->HasBytesToOutput()) {orc << k << " ORACLE FAIL pump: sender makes no progress over an unlimited transport but HasBytesToOutput() stays true\n"; failed = true;}
+            else if ((!pipe.q.empty())||(!packets.empty())) {orc << k << " ORACLE FAIL pump: receiver leaves " << (pipe.q.size()+packets.size()) << " bytes/packets unread\n"; failed = true;}
+            else
+            {
+               bool complete;
+               if (kind == 'R')
+               {
+                  size_t ns = 0, ng = 0; for (size_t i=0; i<sent.size(); i++) ns += sent[i].size(); for (size_t i=0; i<got.size(); i++) ng += got[i].size();
+                  RawDataMessageIOGateway * g = static_cast<RawDataMessageIOGateway *>(rgw());
+                  complete = (ng + (g->_recvMsgRef() ? (size_t) g->_recvBufByteOffset : 0) == ns);
+               }
+               else
+               {
+                  std::vector<std::string> s2; for (size_t i=0; i<sent.size(); i++) if ((kind != 'S')||(!sent[i].empty())) s2.push_back(sent[i]);
+                  complete = (got == s2);
+               }
+               if (!complete) {orc << k << " ORACLE FAIL pump: HasBytesToOutput() is false and nothing is in flight, but only " << got.size() << " of " << sent.size() << " queued items were delivered (or they differ)\n"; failed = true;}
+            }
+         }
       }
       // ---- oracle: completeness once everything has been moved
       if ((oracle_on)&&(!failed)&&(sgw()->HasBytesToOutput() == false)&&(pipe.q.empty())&&(packets.empty())&&((sio == NULL)||(sio->HasBufferedOutput() == false)))
